@@ -10,6 +10,7 @@
    C12_silent_reload_drop_refuted. *)
 From Coq Require Import NArith List.
 From HI Require Import Model.ConfigSM Model.ConfigSM_Faults Proofs.ConfigSM Proofs.ConfigSM_Faults.
+From HI Require Import Model.RetryLoop Proofs.RetryLoop.
 Import ListNotations.
 Open Scope N_scope.
 
@@ -110,3 +111,78 @@ Theorem C12_silent_reload_drop_refuted :
     forall r, i_running s' = Some r -> ~ disk_ok e (i_cfg s') r.
 Proof. exact silent_reload_drop_refuted. Qed.
 Print Assumptions C12_silent_reload_drop_refuted.
+
+(* ---------------------------------------------------------------- the layer that retries
+   Model/RetryLoop.v: watchers (changes handed over to a reconciliation are swapped out), work
+   queue (a set of rparam{fullsync} items, ready or delayed), IngressReconciler.Reconcile (on
+   error the SAME rparam is scheduled again after ReloadRetry), Services.ReconcileIngress,
+   reload queue; the legacy controller is the sub-case with one kind of request.  [lrun] runs
+   a trace of events: LChange full (a watched object changed, handler with h.full = full),
+   LLeader, LTick full (a delayed request becomes ready), LAttempt full l fs (the worker takes
+   rparam{full}; the converters make the calls l; faults fs), LReload ok.  [wf_trace] = the
+   worker only takes ready requests, batches follow the converters' protocol, a full request is
+   served by a full sync, no silent reload drop.  [pending] = a request is ready or delayed, or a
+   reload sits in the reload queue.  Taken as given: client-go's work queue does deliver a
+   delayed / ready item (the theorems are about every finite trace). *)
+
+(* (1) safety, for every interleaving of events, attempts, faults and reloads: when nothing is
+   pending, the watchers hold no change, and - unless nothing was ever reconciled - the last
+   update succeeded, the files are exactly the model and haproxy has loaded exactly it *)
+Theorem C12_pending_until_converged : forall e, shard_range e ->
+  forall tr, wf_trace e loop_init tr ->
+    let L := lrun e loop_init tr in
+    pending L = false ->
+    q_wch (l_q L) = false /\
+    (untouched (l_inst L) \/
+     (i_failed (l_inst L) = false /\ disk_ok e (i_cfg (l_inst L)) (i_disk (l_inst L)) /\
+      exists r, i_running (l_inst L) = Some r /\ disk_ok e (i_cfg (l_inst L)) r)).
+Proof. exact pending_until_converged. Qed.
+Print Assumptions C12_pending_until_converged.
+
+(* (2) a failed attempt schedules the same request (full stays full) and is remembered ... *)
+Theorem C12_failed_attempt_is_requeued : forall e L full l fs,
+  rset_mem (q_ready (l_q L)) full = true -> snd (step_f e fs (l_inst L) l) = true ->
+  let L' := lstep e L (LAttempt full l fs) in
+  rset_mem (q_delay (l_q L')) full = true /\ i_failed (l_inst L') = true.
+Proof. exact failed_attempt_is_requeued. Qed.
+Print Assumptions C12_failed_attempt_is_requeued.
+
+(* ... and after any trace (new events between the failure and the retry, other attempts
+   failing, reloads), while the last update failed a request is pending, and the next attempt
+   without fault - the scheduled retry or any other request, full or partial, whatever batch
+   it is handed, empty included - converges (C12_retry_converges at this layer) *)
+Theorem C12_attempt_after_failure_converges : forall e, shard_range e ->
+  forall tr, wf_trace e loop_init tr ->
+    let L := lrun e loop_init tr in
+    (i_failed (l_inst L) = true -> q_pending (l_q L) = true) /\
+    forall full l, wf_trace e L [LAttempt full l []] ->
+      let L' := lstep e L (LAttempt full l []) in
+      i_failed (l_inst L') = false /\ disk_ok e (i_cfg (l_inst L')) (i_disk (l_inst L')) /\
+      ((inline e = true \/ i_pending (l_inst L') = false) ->
+         exists r, i_running (l_inst L') = Some r /\ disk_ok e (i_cfg (l_inst L')) r).
+Proof. exact attempt_after_failure_converges. Qed.
+Print Assumptions C12_attempt_after_failure_converges.
+
+(* (3) every trace that ends with an attempt reporting success: files, and what haproxy has
+   loaded once no reload is queued, are exactly the state FF the same reconciliations reach
+   without any fault ([attempts] = the batches of the trace, [erase] = no fault armed) *)
+Theorem C12_eventually_fault_free_converges : forall e, shard_range e ->
+  forall tr full l fs, wf_trace e loop_init (tr ++ [LAttempt full l fs]) ->
+    let L := lrun e loop_init (tr ++ [LAttempt full l fs]) in
+    let FF := run_f e inst_empty (erase (attempts e loop_init (tr ++ [LAttempt full l fs]))) in
+    i_failed (l_inst L) = false ->
+    disk_ok e (i_cfg (l_inst L)) (i_disk (l_inst L)) /\
+    disk_ok e (i_cfg FF) (i_disk (l_inst L)) /\ disk_ok e (i_cfg FF) (i_disk FF) /\
+    ((inline e = true \/ i_pending (l_inst L) = false) ->
+       exists r, i_running (l_inst L) = Some r /\ disk_ok e (i_cfg FF) r).
+Proof. exact eventually_fault_free_converges. Qed.
+Print Assumptions C12_eventually_fault_free_converges.
+
+(* the hypotheses on traces are satisfiable (a change, the rate limiter's delay, a reconciliation
+   whose main file cannot be written - it fails -, then the retry with an empty batch) *)
+Theorem C12_trace_hypotheses_satisfiable :
+  wf_trace w_env loop_init [LChange false; LTick false; LAttempt false w_full2 [FMain]] /\
+  snd (step_f w_env [FMain] (l_inst w_L2) w_full2) = true /\
+  wf_trace w_env (lstep w_env w_L3 (LTick false)) [LAttempt false w_retry []].
+Proof. exact wf_trace_example. Qed.
+Print Assumptions C12_trace_hypotheses_satisfiable.
